@@ -224,7 +224,14 @@ func vTimeUnix(sec int64) time.Time { return time.Unix(sec, 0) }
 // vTransition mirrors the tail of fsmHandler.loop for one state change: fsm.stateChange, the
 // server callback, then publication of the new state.
 func vTransition(s *BgpServer, p *peer, next bgp.FSMState, reason fsmStateReasonType) {
-	r := newfsmStateReason(reason, nil, nil)
+	var n *bgp.BGPMessage
+	switch reason {
+	case fsmNotificationRecv, fsmNotificationSent:
+		n = bgp.NewBGPNotificationMessage(bgp.BGP_ERROR_CEASE, bgp.BGP_ERROR_SUB_PEER_DECONFIGURED, nil)
+	case fsmHardReset:
+		n = bgp.NewBGPNotificationMessage(bgp.BGP_ERROR_CEASE, bgp.BGP_ERROR_SUB_HARD_RESET, nil)
+	}
+	r := newfsmStateReason(reason, n, nil)
 	p.fsm.stateChange(next, r)
 	s.handleFSMMessage(p, &fsmMsg{MsgType: fsmMsgStateChange, MsgData: next, StateReason: r})
 	p.fsm.state.Store(next)
